@@ -192,6 +192,7 @@ harnesses! {
     e2n_c01_struct_roundtrip [native 0] => battery::c01_battery;
     e2n_c04_fixed_tx [native 0] => battery::c04_fixed_tx;
     e2n_c13_send_all [native 0] => battery::c13_send_all;
+    e2n_c16_sets [native 0] => battery::c16_sets;
     e2n_c02_decode [native 0] => c02::c02_decode;
     e2n_c02_battery [native 0] => c02::c02_battery;
     e2n_c02_wrappers [native 0] => c02::c02_wrappers;
